@@ -73,6 +73,9 @@ type solverSpec struct {
 
 var solvers = []solverSpec{
 	{"z3-new", func(f string, t int) []string { return []string{"z3-new", fmt.Sprintf("-t:%d", t), f} }},
+	{"z3-new(e)", func(f string, t int) []string {
+		return []string{"z3-new", "smt.mbqi=false", "smt.arith.solver=2", fmt.Sprintf("-t:%d", t), f}
+	}},
 	{"z3", func(f string, t int) []string { return []string{"z3", fmt.Sprintf("-t:%d", t), f} }},
 	{"cvc5", func(f string, t int) []string {
 		return []string{"cvc5", "--produce-models", fmt.Sprintf("--tlimit=%d", t), f}
@@ -87,7 +90,11 @@ type solveOut struct {
 }
 
 func runSolver(sp solverSpec, file string, timeoutMs int) solveOut {
-	ctx, cancel := context.WithTimeout(context.Background(), time.Duration(timeoutMs+2000)*time.Millisecond)
+	return runSolverCtx(context.Background(), sp, file, timeoutMs)
+}
+
+func runSolverCtx(parent context.Context, sp solverSpec, file string, timeoutMs int) solveOut {
+	ctx, cancel := context.WithTimeout(parent, time.Duration(timeoutMs+2000)*time.Millisecond)
 	defer cancel()
 	a := sp.args(file, timeoutMs)
 	cmd := exec.CommandContext(ctx, a[0], a[1:]...)
@@ -123,7 +130,13 @@ type worker struct {
 }
 
 func startWorker(timeoutMs int) (*worker, error) {
-	cmd := exec.Command("z3-new", "-in", fmt.Sprintf("-t:%d", timeoutMs))
+	// E-matching only: model-based instantiation costs seconds on the large
+	// array terms and never decides these goals; a query it would have
+	// answered still gets a default-configuration solver in the fallback race
+	// smt.arith.solver=2: references are integers compared with the allocation
+	// frontier; z3 5.1's default arithmetic solver spends tens of seconds in
+	// theory combination on them where the older simplex answers at once
+	cmd := exec.Command("z3-new", "-in", "smt.mbqi=false", "smt.arith.solver=2", fmt.Sprintf("-t:%d", timeoutMs))
 	stdin, err := cmd.StdinPipe()
 	if err != nil {
 		return nil, err
@@ -345,7 +358,7 @@ func (g *G) solveAll(obls []*Obligation, dir string, timeoutMs int, thorough boo
 							want = "sat"
 						}
 						if first == want || (first == "sat" && !thorough) || (first == "unsat" && !thorough) {
-							j.o.Result, j.o.Solver, j.o.Secs, j.o.Raw = first, "z3-new", secs, raw
+							j.o.Result, j.o.Solver, j.o.Secs, j.o.Raw = first, "z3-new(pool)", secs, raw
 							if first == "sat" && !j.o.Cover && len(j.o.Models) > 0 {
 								j.o.Model = parseValues(raw)
 							}
@@ -392,8 +405,11 @@ func (g *G) solveOne(o *Obligation, file string, timeoutMs int, thorough bool) {
 		// and borderline queries come out differently
 		race := solvers
 		ch := make(chan solveOut, len(race))
+		// the losers are killed as soon as one solver gives a definite answer
+		rctx, stopRace := context.WithCancel(context.Background())
+		defer stopRace()
 		for _, sp := range race {
-			go func(sp solverSpec) { ch <- runSolver(sp, file, timeoutMs) }(sp)
+			go func(sp solverSpec) { ch <- runSolverCtx(rctx, sp, file, timeoutMs) }(sp)
 		}
 		var outs []solveOut
 		for range race {
@@ -404,6 +420,7 @@ func (g *G) solveOne(o *Obligation, file string, timeoutMs int, thorough bool) {
 				break
 			}
 		}
+		stopRace()
 		if !definite(r.res) {
 			// keep the most informative
 			r = outs[0]
@@ -412,6 +429,11 @@ func (g *G) solveOne(o *Obligation, file string, timeoutMs int, thorough bool) {
 					r = x
 				}
 			}
+			var all []string
+			for _, x := range outs {
+				all = append(all, fmt.Sprintf("%s: %s after %.1fs", x.solver, x.res, x.secs))
+			}
+			r.raw = "no solver decided the query (" + strings.Join(all, "; ") + ")\n" + r.raw
 		}
 	} else if thorough {
 		// second opinion from an independent back end
